@@ -96,7 +96,12 @@ func ZZGenIProg(k int, depth int) *ZZIProg {
 	p := &ZZIProg{K: k}
 	for i := 0; i < k; i++ {
 		d := &ZZIDef{}
-		d.NameIdx = vn.Int(0, k)
+		if vn.Param("FIXNAMES", 0) == 1 {
+			// definition i is called Ti (no duplicate definitions); references may still be undefined
+			d.NameIdx = vn.Int(i, i)
+		} else {
+			d.NameIdx = vn.Int(0, k)
+		}
 		if vn.Param("LEAN", 0) != 2 {
 			d.HasAnn = vn.Pick(2) == 1
 		}
